@@ -147,6 +147,11 @@ def native_checks(run, seeds):
         run.native_runs += 1
         pr, _ = sklearn_native.fit_with_failing_optimiser(seed)
         problems += pr
+        # success side of the optimiser boundary, with every Config field at a non-default value and with the defaults
+        for ck in (None, {"innovation_filtering": None}):
+            run.native_runs += 1
+            pr, _ = sklearn_native.fit_with_succeeding_optimiser(seed, ck)
+            problems += pr
         # the data set on which the unfixed fit died (zero controls, 6 rows)
         import numpy as np
 
